@@ -325,6 +325,8 @@ def backlight_and_glyph_obligations(HostLCD):
         "upload-in-untaken-branch-then-same-upload": "c = 0\nif c > 5:\n    d.glyph(0, [1, 2, 3, 4, 5, 6, 7, 8])\nd.glyph(0, [1, 2, 3, 4, 5, 6, 7, 8])\n",
         "helper-overwrites-between-two-equal-uploads": "def other():\n    d.glyph(1, [31, 0, 31, 0, 31, 0, 31, 0])\nd.glyph(1, [4, 4, 4, 4, 4, 4, 4, 4])\nother()\nd.glyph(1, [4, 4, 4, 4, 4, 4, 4, 4])\n",
         "loop-body-reuploads": "k = 0\nwhile True:\n    d.glyph(2, [1, 1, 1, 1, 1, 1, 1, 1])\n    k = k + 1\n    d.glyph(2, [2, 2, 2, 2, 2, 2, 2, 2])\n    sleep(5)\n",
+        "rows-outside-five-bits-are-masked": "d.glyph(3, [32, 64, 255, 31, 0, 33, 95, 63])\nd.glyph(4, [31, 31, 31, 31, 31, 31, 31, 31])\n",
+        "negative-rows-are-masked": "d.glyph(5, [-1, -2, -32, -33, 1, 2, 3, 4])\n",
         "two-slots-straight-line": "d.glyph(0, [1, 2, 4, 8, 16, 8, 4, 2])\nd.glyph(7, [31, 31, 0, 0, 31, 31, 0, 0])\nd.glyph(0, [0, 0, 0, 0, 0, 0, 0, 1])\n",
     }
     for gname, body in GLYPH.items():
